@@ -188,3 +188,24 @@ CHECKS["C01"] = {
     ],
     "floors": {"C01/delivery": {"multi_frame_message": 0.3, "concurrent_senders_receivers": 0.4, "graceful_rpc": 0.3, "early_end": 0.2, "@nontrivial": 0.5}},
 }
+
+CHECKS["C02"] = {
+    "pkg": "./conn",
+    "level": "exploration",
+    "rule": ("Three sub-checks. sequences: 2..6 RPCs (unary and streaming mixed) with independently drawn client/handler programs, issued one after the other or all up front from separate goroutines "
+             "(queued on the connection), each possibly ended early by Close, cancel (both modes), a handler error or an undecodable message, with stall windows and scheduling points so that leftovers of RPC n are "
+             "delivered after RPC n+1 has started; oracle: every delivered payload carries its own RPC's tag and direction, a unary call returns the echo of its own request, every handler-coded error observed by RPC k is k's, "
+             "a handler starts at most once per call. stale_from_server: the harness plays the server at wire level and sends late packets of the previous stream (messages of the old RPC, error, close, half-close, cancel, "
+             "unknown control kinds, multi-frame) before answering the current one, at drawn moments (before the stream exists, after the request is on the wire); the real client must complete every RPC with exactly its own messages. "
+             "stale_from_client: the harness plays the client at wire level against the real server: late packets of the previous stream, abandoned InvokeMetadata packets, then the next invoke; every call reaches its handler exactly once, "
+             "with exactly its own metadata, and the server's per-stream output is that call's own outcome. Non-trivial: leftover bytes in flight when the next RPC started or concurrent callers (sequences); stale/abandoned packets sent (peers)."),
+    "assumptions": E3_ASSUME + ["the wire-level peers only emit id sequences a conforming endpoint could emit (non-decreasing ids); anything else legitimately kills the connection",
+                                "known finding F5 shapes are excluded from the generated handler programs (see C06)"],
+    "subs": [
+        {"test": "TestC02Sequences", "prop": "C02/sequences", "quick": 12000, "thorough": 400000, "shards_quick": 16, "shards_thorough": 16, "gomaxprocs": 1},
+        {"test": "TestC02StaleFromServer", "prop": "C02/stale_from_server", "quick": 6000, "thorough": 200000, "shards_quick": 8, "shards_thorough": 16, "gomaxprocs": 1},
+        {"test": "TestC02StaleFromClient", "prop": "C02/stale_from_client", "quick": 6000, "thorough": 200000, "shards_quick": 8, "shards_thorough": 16, "gomaxprocs": 1},
+    ],
+    "floors": {"C02/sequences": {"leftover_bytes_when_next_rpc_started": 0.3, "concurrent_callers": 0.3}, "C02/stale_from_server": {"stale_packets_sent": 0.4},
+               "C02/stale_from_client": {"stale_packets_sent": 0.4, "abandoned_call_before": 0.3}},
+}
